@@ -68,6 +68,134 @@ def race_family(rng, n):
     return out
 
 
+def notif_replay(ctx, n):
+    """NotifProto.v (part 1: one waiter and its private wake-up interrupt) against the real wait code.  One real waiter -
+    postpone(), suspend(delay), `await notification`, a subscription to a condition that holds, a subscription to a Delay -
+    is driven under a stand-in loop that only queues what `schedule` is given; a random history of events (somebody wakes
+    the notification, the "kernel" pops the next queued activation and throws its signal unless revoked, a foreign
+    exception ends the wait) is applied to the real objects and, as [wev] events, to `wrun`; after the history the real
+    waiting list, `scheduled` / `_revoked` of the real Interrupt, the queue length, deliveries, late deliveries, a
+    ValueError of `_waiting.remove` and the phase must agree with the model."""
+    import usim
+    from usim._core.loop import __HIBERNATE__
+    from usim._core.handler import __USIM_STATE__ as state
+    from usim._primitives.notification import Notification, NoSubscribers, postpone, suspend
+    from harness.check import parse_nat_list
+    rng = ctx.rng
+
+    class FakeLoop:
+        time = 0
+        activity = None
+
+        def __init__(self):
+            self.q = []
+
+        def schedule(self, target, signal=None, *, delay=None, at=None):
+            self.q.append((target, signal))
+            if signal is not None:
+                signal.scheduled = True
+    KINDS = ['SelfNow', 'SelfLater', 'Plain', 'CondTrue', 'DelaySub']
+    cases = []
+    for _ in range(n):
+        kind = rng.choice(KINDS)
+        loop = FakeLoop()
+        note = Notification()
+        flag = usim.Flag()
+        flag._value = True
+        delay = usim.time + 3
+        st = {'phase': 'Idle', 'got': 0, 'late': 0, 'err': False, 'w': None}
+
+        async def waiter():
+            try:
+                if kind == 'SelfNow':
+                    await postpone()
+                elif kind == 'SelfLater':
+                    await suspend(delay=3, until=None)
+                elif kind == 'Plain':
+                    await note
+                elif kind == 'CondTrue':
+                    with flag.__subscription__():
+                        await __HIBERNATE__
+                else:
+                    with delay.__subscription__():
+                        await __HIBERNATE__
+            except ValueError:
+                st['err'] = True
+        co = waiter()
+        events = ['ESub %s' % kind]
+        with state.assign(loop):
+            loop.activity = co
+            co.send(None)
+            st['phase'] = 'Waiting'
+            st['w'] = loop.q[0][1] if loop.q else note._waiting[0][1]
+            for _ in range(rng.randint(0, 7)):
+                e = rng.choice(['EAwake', 'EPop', 'EPop', 'EForeign'])
+                if e == 'EAwake':
+                    events.append('EAwake')
+                    try:
+                        note.__awake_next__()
+                    except NoSubscribers:
+                        pass
+                elif e == 'EPop':
+                    events.append('EPop')
+                    if loop.q:
+                        target, sig = loop.q.pop(0)
+                        if sig:                       # Activation.__bool__: not revoked
+                            loop.activity = target
+                            st['got'] += 1
+                            if st['phase'] != 'Waiting':
+                                st['late'] += 1
+                            try:
+                                target.throw(sig)
+                            except StopIteration:
+                                pass
+                            except BaseException:    # noqa  (a signal thrown into a finished coroutine comes back)
+                                pass
+                            if st['phase'] == 'Waiting':
+                                st['phase'] = 'Left ByWake'
+                                events.append('EUnwind')     # a plain waiter's `finally` runs at once
+                else:
+                    events.append('EForeign')
+                    if st['phase'] == 'Waiting':
+                        loop.activity = co
+                        try:
+                            co.throw(KeyError('foreign'))
+                        except KeyError:
+                            pass
+                        except StopIteration:
+                            pass
+                        st['phase'] = 'Left BySignal'
+        w = st['w']
+        obs = (len(note._waiting), bool(w.scheduled), bool(w._revoked), len(loop.q), st['got'], st['late'], st['err'], st['phase'])
+        note._waiting.clear()
+        co.close()
+        cases.append((events, obs))
+    text = ['From Coq Require Import List Arith Bool.', 'From Usim Require Import NotifProto.', 'Import ListNotations.',
+            'Definition ph_eqb (a b : phase) : bool := match a, b with Idle, Idle | Waiting, Waiting | Woken, Woken => true',
+            '  | Left ByWake, Left ByWake | Left BySignal, Left BySignal => true | _, _ => false end.',
+            'Definition same (s : wst) (nl : nat) (sc rv : bool) (nq ng nlate : nat) (er : bool) (p : phase) : bool :=',
+            '  Nat.eqb (length (w_list s)) nl && Bool.eqb (w_sched s) sc && Bool.eqb (w_revk s) rv && Nat.eqb (length (w_q s)) nq &&',
+            '  Nat.eqb (length (w_got s)) ng && Nat.eqb (w_late s) nlate && Bool.eqb (w_err s) er && ph_eqb (w_ph s) p.',
+            'Definition bad : list nat := flat_map (fun x => x) [%s].' % ';\n  '.join(
+                '(if same (wrun 7 winit [%s]) %d %s %s %d %d %d %s (%s) then [] else [%d])' % (
+                    '; '.join(ev), o[0], str(o[1]).lower(), str(o[2]).lower(), o[3], o[4], o[5], str(o[6]).lower(), o[7], i)
+                for i, (ev, o) in enumerate(cases)),
+            'Eval vm_compute in bad.']
+    path = ctx.write_case_file('notif_replay', '\n'.join(text) + '\n')
+    rc, out = ctx.run_case_files([path])[path]
+    bad = parse_nat_list(out) if rc == 0 else None
+    ctx.bump('family:notif-replay', n)
+    if bad is None:
+        ctx.mismatch('notif-replay', None, None, None, 'case file did not evaluate: %s' % out[-500:])
+    else:
+        for i in bad:
+            ctx.mismatch('notif-replay', {'events': cases[i][0]}, cases[i][1], 'model differs', '')
+    for ev, o in cases:
+        if o[5] or o[6] or o[4] > 1:
+            ctx.fail({'wait_history': ev}, 'a wake-up interrupt was delivered %d time(s), %d of them after its wait had ended, '
+                     'ValueError=%r' % (o[4], o[5], o[6]), family='notif-replay')
+
+
 def suppressed_failures(rng, n):
     """directed family: a scope / until-scope whose body is finished and which waits for its children is cancelled by a
     child that fails with an error type the scope suppresses (TaskCancelled from awaiting a cancelled task, TaskClosed
@@ -100,6 +228,7 @@ def suppressed_failures(rng, n):
 def run(ctx):
     machine_prop.run(ctx, FAMILIES, MONITORS, extra_scenarios=race_family(ctx.rng, ctx.n(120, 3000)) +
                      suppressed_failures(ctx.rng, ctx.n(40, 800)))
+    notif_replay(ctx, ctx.n(300, 3000))
     d16_directed(ctx)
 
 
